@@ -39,7 +39,7 @@ STEP_OUT = ['shapes beyond the list', 'real thread timing', 'more than 2 reads/w
 
 def step_part(labels_owner=None):
     return {'engine': 'kani', 'family': 'step', 'module': 'step', 'select': sel('step', STEP_Q, STEP_T),
-            'unlabelled_owner': labels_owner, 'jobs': 14, 'timeout_quick': 600, 'timeout_thorough': 2400, 'mem_gb': 14}
+            'unlabelled_owner': labels_owner, 'jobs': 14, 'timeout_quick': 420, 'timeout_thorough': 2400, 'mem_gb': 14}
 
 
 RULE_STEP = ('one Kani/CBMC harness instance per concrete pre-state shape x barrier x dependency pattern; contents '
@@ -66,8 +66,8 @@ RULE_EXEC = ('one Kani/CBMC harness instance per concrete layout x call sequence
 
 
 def exec_part(owner=None):
-    return {'engine': 'kani', 'family': 'exec', 'module': 'exec', 'select': sel('exec', r'^exec_'), 'unlabelled_owner': owner,
-            'jobs': 10, 'timeout_quick': 900, 'timeout_thorough': 2400, 'mem_gb': 14}
+    return {'engine': 'kani', 'family': 'exec', 'module': 'exec', 'select': sel('exec', r'^exec_[a-e]_', r'^exec_'), 'unlabelled_owner': owner,
+            'jobs': 10, 'timeout_quick': 420, 'timeout_thorough': 2400, 'mem_gb': 14}
 
 
 PROPS_C06 = {'level': 'other', 'rule': 'one obligation per (function, clause of its specification); the functions are the MIR bodies of the current tree; non-trivial = obligation whose function body was symbolically executed along at least one path',
@@ -109,6 +109,16 @@ def relabel_part():
             'unlabelled_owner': None, 'jobs': 8, 'timeout_quick': 900, 'timeout_thorough': 2400, 'mem_gb': 20}
 
 
+def parseq_part(kind):
+    # 'ok': any panic of Par::with is a violation; 'conflict': the library's own assertion is expected, the sentinel must be unreachable
+    d = {'engine': 'kani', 'family': 'parseq-' + kind, 'module': 'parseq', 'jobs': 5, 'timeout_quick': 420, 'timeout_thorough': 1200, 'mem_gb': 14}
+    if kind == 'ok':
+        d.update({'select': sel('parseq', r'^parseq_(ok_|tree_)'), 'unlabelled_owner': 'C16'})
+    else:
+        d.update({'select': sel('parseq', r'^parseq_conflict_'), 'unlabelled_owner': 'C16', 'ignore_unlabelled': r'Tried to add system with conflicting reads / writes|read_write_intersections_safe', 'expect_failed': True})
+    return d
+
+
 def unit_part(rx_quick, rx_thorough=None):
     return {'engine': 'kani', 'family': 'unit', 'module': 'unit', 'select': sel('unit', rx_quick, rx_thorough), 'unlabelled_owner': None,
             'jobs': 6, 'timeout_quick': 900, 'timeout_thorough': 2400, 'mem_gb': 20}
@@ -123,11 +133,11 @@ RELABEL_BOUNDS = {'relabel shapes': '1x1x1 1x2x1 2x1x1 1x1x2, <= 2 reads and <= 
 PROPS = {
     'C01': prop('model_checking', [step_part(), commit_part(), exec_part(), mir_part(['spec_insert', 'spec_stage_exec'])], STEP_FUNCS + EXEC_FUNCS, both(STEP_BOUNDS, EXEC_BOUNDS), STEP_ASSUME + EXEC_ASSUME, STEP_OUT + EXEC_OUT, RULE_STEP + ' | ' + RULE_EXEC),
     'C02': prop('model_checking', [step_part(), exec_part(), mir_part(['spec_add'])], STEP_FUNCS + EXEC_FUNCS + ['DispatcherBuilder::add'], both(STEP_BOUNDS, EXEC_BOUNDS), STEP_ASSUME + EXEC_ASSUME + MIR_ASSUME, STEP_OUT + EXEC_OUT, RULE_STEP + ' | ' + RULE_EXEC + ' | ' + MIR_RULE),
-    'C03': prop('model_checking', [step_part(), exec_part(), unit_part(r'^unit_barrier_'), mir_part(['spec_add_barrier'])], STEP_FUNCS + ['StagesBuilder::add_barrier', 'DispatcherBuilder::add_barrier'], both(STEP_BOUNDS, EXEC_BOUNDS), STEP_ASSUME + EXEC_ASSUME + MIR_ASSUME, STEP_OUT + EXEC_OUT, RULE_STEP + ' | ' + RULE_EXEC + ' | ' + MIR_RULE),
+    'C03': prop('model_checking', [step_part(), exec_part(), unit_part(r'^unit_barrier_'), mir_part(['spec_add_barrier', 'spec_insertion_target'])], STEP_FUNCS + ['StagesBuilder::add_barrier', 'DispatcherBuilder::add_barrier'], both(STEP_BOUNDS, EXEC_BOUNDS), STEP_ASSUME + EXEC_ASSUME + MIR_ASSUME, STEP_OUT + EXEC_OUT, RULE_STEP + ' | ' + RULE_EXEC + ' | ' + MIR_RULE),
     'C04': prop('model_checking', [exec_part('C04'), commit_part('C04'), mir_part()], EXEC_FUNCS + ['MultiDispatcher::run', 'DispatcherBuilder::add_batch'], EXEC_BOUNDS, EXEC_ASSUME + MIR_ASSUME, EXEC_OUT + ['hundreds of systems as one concrete plan (covered through the commit induction)'], RULE_EXEC + ' | ' + MIR_RULE),
-    'C05': prop('model_checking', [exec_part(), mir_part(['spec_insert', 'spec_stage_exec'])], EXEC_FUNCS, EXEC_BOUNDS, EXEC_ASSUME, EXEC_OUT + ['that non-conflicting steps commute on the real World under real interleavings (reduced claim: order agreement of dispatch_par and dispatch_seq on every ordered pair)'], RULE_EXEC),
+    'C05': prop('model_checking', [exec_part(), mir_part(['spec_insert', 'spec_stage_exec', 'spec_feature_configs'])], EXEC_FUNCS, EXEC_BOUNDS, EXEC_ASSUME, EXEC_OUT + ['that non-conflicting steps commute on the real World under real interleavings (reduced claim: order agreement of dispatch_par and dispatch_seq on every ordered pair)'], RULE_EXEC),
     'C06': PROPS_C06,
-    'C07': prop('other', [mir_part(), unit_part(r'^unit_fetchall_s1g2l1', r'^unit_fetchall_')], ['DispatcherBuilder::add_batch', 'BatchAccessor::{new,reads,writes}', 'BatchControllerSystem::{create,run,accessor,running_time}', 'BatchUncheckedWorld::{fetch,setup}'], {'loop unrolling': 3, 'nesting': 'any depth: a nested batch is an ordinary system of the inner builder'}, MIR_ASSUME + ['fetch_all_reads/fetch_all_writes return every id of every group (E1 unit harness, thorough)', 'sort/dedup preserve membership (std contract)'], ['interleavings of outer systems with the batch (C01 applies to the batch as one system)'], MIR_RULE, 'E2 symbolic execution of the batch glue'),
+    'C07': prop('other', [mir_part(), unit_part(r'^unit_fetchall_(s1g1l1_r2w2|s1g2l1_r1w1)', r'^unit_fetchall_')], ['DispatcherBuilder::add_batch', 'BatchAccessor::{new,reads,writes}', 'BatchControllerSystem::{create,run,accessor,running_time}', 'BatchUncheckedWorld::{fetch,setup}'], {'loop unrolling': 3, 'nesting': 'any depth: a nested batch is an ordinary system of the inner builder'}, MIR_ASSUME + ['fetch_all_reads/fetch_all_writes return every id of every group (E1 unit harness, thorough)', 'sort/dedup preserve membership (std contract)'], ['interleavings of outer systems with the batch (C01 applies to the batch as one system)'], MIR_RULE, 'E2 symbolic execution of the batch glue'),
     'C10': prop('model_checking', [step_part(), exec_part()], STEP_FUNCS + ['SendDispatcher::max_threads', 'Stage::max_threads'], both(STEP_BOUNDS, EXEC_BOUNDS), STEP_ASSUME + EXEC_ASSUME, STEP_OUT, RULE_STEP + ' | ' + RULE_EXEC),
     'C11': prop('model_checking', [exec_part(), mir_part()], EXEC_FUNCS + ['DispatcherBuilder::{build,create_thread_pool,add_batch}'], EXEC_BOUNDS, EXEC_ASSUME + MIR_ASSUME, ['that real rayon with enough idle workers actually overlaps the jobs (liveness of rayon\'s scheduler)', 'async dispatcher'], RULE_EXEC + ' | ' + MIR_RULE),
     'C12': prop('model_checking', [exec_part(), mir_part()], EXEC_FUNCS + ['DispatcherBuilder::add_thread_local', 'AsyncDispatcher::wait'], EXEC_BOUNDS, EXEC_ASSUME + MIR_ASSUME, ['Dispatcher is !Send (a compile-time fact)', 'async dispatcher beyond the shape of wait()'], RULE_EXEC + ' | ' + MIR_RULE),
@@ -138,12 +148,12 @@ PROPS = {
                 ['the borrow state of a populated World over multi-step or multi-threaded histories (hashbrown cannot be executed symbolically here)', 'canary data races'], MIR_RULE, 'E2: every shared-reference access path of World, path by path'),
     'C09': prop('other', [mir_part()], ['ResourceId::assert_same_type_id', 'World::{insert,insert_by_id,remove,remove_by_id,entry,has_value,has_value_raw,get_mut,exec}'], {},
                 MIR_ASSUME + ['std HashMap laws (insert replaces, remove returns, entry-or-insert never overwrites, slots are independent)'], ['multi-step histories on a populated World', 'exactly-once drop (ownership)'], MIR_RULE, 'E2: type check dominance and id provenance of every id-taking entry point'),
-    'C16': prop('other', [mir_part()], ['Seq::{run,setup,reads,writes,with,new}', 'Par::{run,setup,reads,writes,with,new} + run closures', 'leaf RunWithPool impl', 'ParSeq::{dispatch,setup}', 'Par::with in a debug-assertions build'], {'tree shapes': 'all (structural induction over head/tail)', 'loop unrolling': 3},
+    'C16': prop('other', [mir_part(), parseq_part('ok'), parseq_part('conflict')], ['Seq::{run,setup,reads,writes,with,new}', 'Par::{run,setup,reads,writes,with,new} + run closures', 'leaf RunWithPool impl', 'ParSeq::{dispatch,setup}', 'Par::with in a debug-assertions build'], {'tree shapes': 'all (structural induction over head/tail)', 'loop unrolling': 3},
                 MIR_ASSUME + ['rayon::join / ThreadPool::join run both closures exactly once and return after both (contract)'], ['real overlap of par children', 'release builds do not check conflicts (cfg!(debug_assertions))'], MIR_RULE, 'E2: Par/Seq node bodies for all H, T'),
     'C17': prop('other', [mir_part()], ['attach_vtable', 'MetaTable::{register,get,get_mut,iter,iter_mut} + closures', 'MetaIter::next', 'MetaIterMut::next'], {'loop unrolling': 3, 'feature': 'non-nightly'},
                 MIR_ASSUME + ['std HashMap::entry/len/get contracts', 'calling through the attached vtable is the compiler\'s business'], ['hashbrown', 'the nightly feature variant', 'machine-level vtable identity'], MIR_RULE, 'E2: meta table bodies'),
-    'C19': prop('model_checking', [relabel_part(), commit_part(), mir_part(['spec_insert', 'spec_add'])], STEP_FUNCS + COMMIT_FUNCS, both(RELABEL_BOUNDS, COMMIT_BOUNDS), STEP_ASSUME + MIR_ASSUME,
-                ['cross-process / cross-compiler comparison (TypeId order is only used by sort, shown not to influence decisions)', 'the `parallel` feature switch (placement code is cfg-free)'], RULE_STEP + ' | ' + MIR_RULE),
+    'C19': prop('model_checking', [relabel_part(), commit_part(), mir_part(['spec_insert', 'spec_add', 'spec_feature_configs'])], STEP_FUNCS + COMMIT_FUNCS, both(RELABEL_BOUNDS, COMMIT_BOUNDS), STEP_ASSUME + MIR_ASSUME,
+                ['cross-process / cross-compiler comparison (TypeId order is only used by sort, shown not to influence decisions)'], RULE_STEP + ' | ' + MIR_RULE),
     'C20': prop('other', [mir_part()], ['StagesBuilder::write_par_seq + closure', '<DispatcherBuilder as Debug>::fmt'], {'loop unrolling': 1}, MIR_ASSUME + ['ids table and executed list are in lock-step (C04 commit)'],
                 ['the text for arbitrary names (String/fmt machinery is not executed)', 'empty builders beyond the 0-iteration paths'], MIR_RULE, 'E2: plan printer structure and totality of the name lookup'),
 }
